@@ -66,6 +66,7 @@ var specs = map[string]propSpec{
 	"C10": {Binaries: true},
 	"C18": {Binaries: true},
 	"C01": {Binaries: true},
+	"C11": {Binaries: true},
 	"C02": {Binaries: true},
 	"C03": {Binaries: true},
 	"C04": {Binaries: true},
@@ -226,34 +227,39 @@ func check(id, tier string) int {
 		budget = sp.ThoroughBudget
 	}
 	n := sp.Shards
-	var wg sync.WaitGroup
-	outs := make([]string, n)
-	errs := make([]string, n)
-	for i := 0; i < n; i++ {
-		wg.Add(1)
-		go func(i int) {
-			defer wg.Done()
-			of := filepath.Join(bd, "out", fmt.Sprintf("shard%d.json", i))
-			outs[i] = of
-			env := append(goEnv(), "GOMAXPROCS=1", "VERIF_BUILD_DIR="+bd, "VERIF_RDPGW="+gwBin, "VERIF_RDPGW_AUTH="+authBin)
-			if sp.Race {
-				env = append(env, "GORACE=halt_on_error=0 exitcode=0 history_size=2 log_path="+filepath.Join(bd, "out", fmt.Sprintf("race%d", i)))
-			}
-			cmd := exec.Command(bin, "-prop", id, "-tier", tier, "-shard", fmt.Sprintf("%d/%d", i, n), "-seed", fmt.Sprint(seed), "-out", of, "-budget", budget.String())
-			cmd.Dir = root
-			cmd.Env = env
-			out, err := cmd.CombinedOutput()
-			if err != nil {
-				errs[i] = fmt.Sprintf("shard %d: %v\n%s", i, err, tail(string(out), 4000))
-			}
-		}(i)
-	}
-	wg.Wait()
-	for _, e := range errs {
-		if e != "" {
-			fatal("worker failed: %s", e)
+	runShards := func(sub string) []string {
+		var wg sync.WaitGroup
+		outs := make([]string, n)
+		errs := make([]string, n)
+		os.MkdirAll(filepath.Join(bd, sub), 0o755)
+		for i := 0; i < n; i++ {
+			wg.Add(1)
+			go func(i int) {
+				defer wg.Done()
+				of := filepath.Join(bd, sub, fmt.Sprintf("shard%d.json", i))
+				outs[i] = of
+				env := append(goEnv(), "GOMAXPROCS=1", "VERIF_BUILD_DIR="+bd, "VERIF_RDPGW="+gwBin, "VERIF_RDPGW_AUTH="+authBin)
+				if sp.Race {
+					env = append(env, "GORACE=halt_on_error=0 exitcode=0 history_size=2 log_path="+filepath.Join(bd, sub, fmt.Sprintf("race%d", i)))
+				}
+				cmd := exec.Command(bin, "-prop", id, "-tier", tier, "-shard", fmt.Sprintf("%d/%d", i, n), "-seed", fmt.Sprint(seed), "-out", of, "-budget", budget.String())
+				cmd.Dir = root
+				cmd.Env = env
+				out, err := cmd.CombinedOutput()
+				if err != nil {
+					errs[i] = fmt.Sprintf("shard %d: %v\n%s", i, err, tail(string(out), 4000))
+				}
+			}(i)
 		}
+		wg.Wait()
+		for _, e := range errs {
+			if e != "" {
+				fatal("worker failed: %s", e)
+			}
+		}
+		return outs
 	}
+	outs := runShards("out")
 	// merge
 	merged := report{Property: id, Stats: map[string]int64{}, OutcomeSet: map[string]int64{}, Exhaustive: true}
 	vmap := map[string]*violation{}
@@ -308,6 +314,7 @@ func check(id, tier string) int {
 	nviol := 0
 	var unrepro []string
 	var knownHit []string
+	var rerun map[string]bool
 	knownAgg := map[int]*[2]int{}
 	var knownOrder []int
 	rdir := filepath.Join(root, "replays", id)
@@ -357,7 +364,22 @@ func check(id, tier string) int {
 				}
 			}
 		} else {
-			okRuns = 5
+			// no single-case replay exists for this violation: run the whole check a second
+			// time and believe the violation only if it shows up again
+			if rerun == nil {
+				rerun = map[string]bool{}
+				for _, of := range runShards("out2") {
+					var r report
+					if b, err := os.ReadFile(of); err == nil && json.Unmarshal(b, &r) == nil {
+						for _, v2 := range r.Violations {
+							rerun[v2.Sig] = true
+						}
+					}
+				}
+			}
+			if rerun[sig] {
+				okRuns = 5
+			}
 		}
 		need := 5
 		if f, ok := v.Replay["min_repro"].(float64); ok && f >= 1 {
